@@ -312,7 +312,7 @@ def stage_vh_miri(stage, prop, tier, seed, workdir, build, env, log):
     for i in range(n):
         out = os.path.join(workdir, f"{stage['name']}-{i}.json")
         cmd = ["cargo", "+nightly", "miri", "run", "--offline", "-p", "vh", "--target-dir", tdir, "--", stage["engine"], "--prop", prop, "--tier", "quick",
-               "--seed", str(seed), "--shard", str(i), "--nshards", str(n), "--out", out, "--scale", str(stage.get("scale", 0.001)), "--regime", "miri"]
+               "--seed", str(seed), "--shard", str(i), "--nshards", str(n), "--out", out, "--scale", str(stage.get("scale", 0.001)), "--regime", "miri"] + stage.get("args", [])
         procs.append((i, subprocess.Popen(cmd, cwd=harness, env=e, stdout=subprocess.PIPE, stderr=subprocess.STDOUT, text=True), out))
     reports, inconclusive, texts = _collect_vh(procs, stage["name"], stage.get("timeout", 3300))
     bad = [t for t in texts if "Undefined Behavior" in t or "data race" in t.lower() or "deadlock" in t.lower()]
